@@ -225,6 +225,40 @@ func (extEALL) UpdateExt(dst interface{}, src interface{}) {
 	}
 }
 
+// named scalar-kind types with custom codecs (the interesting map keys: kMapCanonical orders them by kind value
+// and must still write them through their hook)
+type NT int
+
+func (x NT) MarshalText() ([]byte, error) { encCalls["text"]++; return []byte("t" + strconv.Itoa(int(x))), nil }
+func (x *NT) UnmarshalText(b []byte) error { decCalls["text"]++; *x = NT(unbin(b, "t")); return nil }
+
+type NB string
+
+func (x NB) MarshalBinary() ([]byte, error) { encCalls["binary"]++; return []byte("b" + string(x)), nil }
+func (x *NB) UnmarshalBinary(b []byte) error {
+	decCalls["binary"]++
+	*x = NB(strings.TrimPrefix(string(b), "b"))
+	return nil
+}
+
+type NS int32
+
+func (x NS) CodecEncodeSelf(e *codec.Encoder)  { encCalls["selfer"]++; e.MustEncode(int64(x) + 1000) }
+func (x *NS) CodecDecodeSelf(d *codec.Decoder) { decCalls["selfer"]++; var v int64; d.MustDecode(&v); *x = NS(v - 1000) }
+
+type NALL uint16
+
+func (x NALL) MarshalBinary() ([]byte, error) { encCalls["binary"]++; return bin(int(x)), nil }
+func (x *NALL) UnmarshalBinary(b []byte) error { decCalls["binary"]++; *x = NALL(unbin(b, "b")); return nil }
+func (x NALL) MarshalText() ([]byte, error)   { encCalls["text"]++; return []byte("t" + strconv.Itoa(int(x))), nil }
+func (x *NALL) UnmarshalText(b []byte) error   { decCalls["text"]++; *x = NALL(unbin(b, "t")); return nil }
+func (x NALL) MarshalJSON() ([]byte, error)   { encCalls["json"]++; return []byte(`"j` + strconv.Itoa(int(x)) + `"`), nil }
+func (x *NALL) UnmarshalJSON(b []byte) error {
+	decCalls["json"]++
+	*x = NALL(unbin([]byte(strings.Trim(string(b), `"`)), "j"))
+	return nil
+}
+
 type xtype struct {
 	name string
 	rt   reflect.Type
@@ -265,6 +299,10 @@ func xtypes() []xtype {
 		{"OM", reflect.TypeOf(OM{}), c("none"), ""},
 		{"OU", reflect.TypeOf(OU{}), c("none"), ""},
 		{"time", reflect.TypeOf(time.Time{}), c("none"), ""},
+		{"NT", reflect.TypeOf(NT(0)), marsh(false, false, true), ""},
+		{"NB", reflect.TypeOf(NB("")), marsh(true, false, false), ""},
+		{"NS", reflect.TypeOf(NS(0)), c("selfer"), ""},
+		{"NALL", reflect.TypeOf(NALL(0)), marsh(true, true, true), ""},
 	}
 }
 
@@ -318,7 +356,16 @@ func place(p string, xt reflect.Type, a int) (src reflect.Value, dst reflect.Val
 		if xt == reflect.TypeOf(time.Time{}) {
 			v.Set(reflect.ValueOf(time.Unix(int64(1700000000+a), 0).UTC()))
 		} else {
-			v.Field(0).SetInt(int64(a))
+			switch xt.Kind() {
+			case reflect.Struct:
+				v.Field(0).SetInt(int64(a))
+			case reflect.Int, reflect.Int8, reflect.Int16, reflect.Int32, reflect.Int64:
+				v.SetInt(int64(a))
+			case reflect.Uint, reflect.Uint8, reflect.Uint16, reflect.Uint32, reflect.Uint64:
+				v.SetUint(uint64(a))
+			case reflect.String:
+				v.SetString("s" + strconv.Itoa(a))
+			}
 		}
 		return v
 	}
@@ -401,7 +448,7 @@ func main() {
 	cases := flag.String("cases", "/verif/build/c17/cases", "directory for the model case files")
 	flag.Parse()
 	r := vh.NewRng(vh.SeedFromEnv())
-	sum := vh.NewSummary("16 types (BytesExt/InterfaceExt, SelfExt, ext+Selfer, Selfer value/pointer receiver, Selfer+marshalers, Binary/Text/JSON marshaler pairs with value and pointer receivers, all three pairs, marshal-only, unmarshal-only, time.Time) x 10 positions x root by value / by pointer x 5 formats x option vectors; distinct by (type, position, root, format, mechanism observed)")
+	sum := vh.NewSummary("20 types (named scalar-kind types with Text / Binary / Selfer / all pairs, BytesExt/InterfaceExt, SelfExt, ext+Selfer, Selfer value/pointer receiver, Selfer+marshalers, Binary/Text/JSON marshaler pairs with value and pointer receivers, all three pairs, marshal-only, unmarshal-only, time.Time) x 10 positions x root by value / by pointer x 5 formats x option vectors (Canonical on in every second round); distinct by (type, position, root, format, mechanism observed)")
 	cv := vh.NewCases(*cases, "From Coq Require Import List NArith Bool.\nFrom Verif Require Import Gen.Choice C17.Model C17.Corr.\nImport ListNotations.", "case", "mismatches", 60)
 	id := 0
 	for _, format := range vh.Formats {
@@ -410,6 +457,12 @@ func main() {
 			delete(o, "StringToRaw")
 			if round == 0 {
 				o = vh.Opts{}
+			}
+			// Canonical changes how map keys and values are written (kMapCanonical): sweep it explicitly
+			if round%2 == 1 {
+				o["Canonical"] = true
+			} else {
+				delete(o, "Canonical")
 			}
 			for _, xt := range xtypes() {
 				h := newHandle(format, o)
